@@ -59,8 +59,17 @@ func init() {
 	})
 }
 
-// emitCoverSources: in u_connection.go configCoveringAdvertised, which transport-parameter fields (p.X)
-// feed the assignments to c.MaxIncomingStreams and c.MaxIncomingUniStreams.
+// emitCoverSources: in u_connection.go configCoveringAdvertised, how the enforced incoming stream limits
+// (MaxIncomingStreams / MaxIncomingUniStreams of the returned Config) are derived. Two shapes are known,
+// matched on what the right-hand side reads, not on identifier names of locals:
+//
+//	"advertised":  X.MaxIncomingStreams = conv(P.<field>)                      (the fixed tree, ad4f2a6)
+//	"max":         X.MaxIncomingStreams = max(X.MaxIncomingStreams, conv(P.<field>)…)   (before the fix)
+//
+// where P is the parameter of type *…TransportParameters, X is any Config-valued identifier (the clone or
+// the parameter) and conv is zero or more numeric conversions / parentheses. Anything else — a third
+// expression, a conditional assignment, two assignments to the same field, two different shapes for the
+// two fields — is an error: the model must be looked at by a human.
 func emitCoverSources(c *Ctx, w *LeanFile) error {
 	af, err := parser.ParseFile(c.Fset, filepath.Join(c.Repo, "u_connection.go"), nil, 0)
 	if err != nil {
@@ -75,40 +84,140 @@ func emitCoverSources(c *Ctx, w *LeanFile) error {
 	if fd == nil {
 		return fmt.Errorf("configCoveringAdvertised not found in u_connection.go")
 	}
-	src := map[string][]string{}
-	keepsOwn := map[string]bool{}
-	for _, st := range fd.Body.List {
-		as, ok := st.(*ast.AssignStmt)
-		if !ok || len(as.Lhs) != 1 || len(as.Rhs) != 1 {
-			continue
-		}
-		lhs, ok := as.Lhs[0].(*ast.SelectorExpr)
-		if !ok {
-			continue
-		}
-		name := lhs.Sel.Name
-		if name != "MaxIncomingStreams" && name != "MaxIncomingUniStreams" {
-			continue
-		}
-		isMax := false
-		if call, ok := as.Rhs[0].(*ast.CallExpr); ok {
-			if id, ok := call.Fun.(*ast.Ident); ok && id.Name == "max" {
-				isMax = true
-			}
-		}
-		ast.Inspect(as.Rhs[0], func(n ast.Node) bool {
-			if se, ok := n.(*ast.SelectorExpr); ok {
-				if id, ok := se.X.(*ast.Ident); ok {
-					if id.Name == "p" {
-						src[name] = append(src[name], se.Sel.Name)
-					}
-					if id.Name == "c" && se.Sel.Name == name && isMax {
-						keepsOwn[name] = true
-					}
-				}
+	// the transport-parameters argument, by type
+	pName := ""
+	for _, fl := range fd.Type.Params.List {
+		mentions := false
+		ast.Inspect(fl.Type, func(n ast.Node) bool {
+			if id, ok := n.(*ast.Ident); ok && id.Name == "TransportParameters" {
+				mentions = true
 			}
 			return true
 		})
+		if mentions && len(fl.Names) == 1 {
+			pName = fl.Names[0].Name
+		}
+	}
+	if pName == "" {
+		return fmt.Errorf("configCoveringAdvertised: no parameter of type TransportParameters")
+	}
+	fields := []string{"MaxIncomingStreams", "MaxIncomingUniStreams"}
+	isField := func(n string) bool { return n == fields[0] || n == fields[1] }
+	var strip func(e ast.Expr) ast.Expr
+	strip = func(e ast.Expr) ast.Expr {
+		for {
+			switch x := e.(type) {
+			case *ast.ParenExpr:
+				e = x.X
+				continue
+			case *ast.CallExpr:
+				if id, ok := x.Fun.(*ast.Ident); ok && len(x.Args) == 1 {
+					switch id.Name {
+					case "int64", "uint64", "int", "uint", "int32", "uint32":
+						e = x.Args[0]
+						continue
+					}
+				}
+			}
+			return e
+		}
+	}
+	// every assignment to one of the two fields anywhere in the body …
+	total := 0
+	ast.Inspect(fd.Body, func(n ast.Node) bool {
+		switch x := n.(type) {
+		case *ast.AssignStmt:
+			for _, l := range x.Lhs {
+				if se, ok := l.(*ast.SelectorExpr); ok && isField(se.Sel.Name) {
+					total++
+				}
+			}
+		case *ast.IncDecStmt:
+			if se, ok := x.X.(*ast.SelectorExpr); ok && isField(se.Sel.Name) {
+				total++
+			}
+		}
+		return true
+	})
+	// … must be one of the unconditional top-level statements classified here
+	src := map[string][]string{}
+	shape := map[string]string{}
+	for _, st := range fd.Body.List {
+		as, ok := st.(*ast.AssignStmt)
+		if !ok {
+			continue
+		}
+		for i, l := range as.Lhs {
+			lhs, ok := l.(*ast.SelectorExpr)
+			if !ok || !isField(lhs.Sel.Name) {
+				continue
+			}
+			name := lhs.Sel.Name
+			if as.Tok.String() != "=" || len(as.Lhs) != len(as.Rhs) {
+				return fmt.Errorf("configCoveringAdvertised: unrecognised assignment form for %s (line %d)", name, c.Fset.Position(as.Pos()).Line)
+			}
+			if _, dup := shape[name]; dup {
+				return fmt.Errorf("configCoveringAdvertised: %s assigned more than once", name)
+			}
+			pField := func(e ast.Expr) (string, bool) {
+				se, ok := strip(e).(*ast.SelectorExpr)
+				if !ok {
+					return "", false
+				}
+				id, ok := se.X.(*ast.Ident)
+				if !ok || id.Name != pName {
+					return "", false
+				}
+				return se.Sel.Name, true
+			}
+			ownField := func(e ast.Expr) bool {
+				se, ok := strip(e).(*ast.SelectorExpr)
+				if !ok || se.Sel.Name != name {
+					return false
+				}
+				id, ok := se.X.(*ast.Ident)
+				return ok && id.Name != pName
+			}
+			rhs := strip(as.Rhs[i])
+			if f, ok := pField(rhs); ok {
+				shape[name] = "advertised"
+				src[name] = []string{f}
+				continue
+			}
+			call, _ := rhs.(*ast.CallExpr)
+			var fun *ast.Ident
+			if call != nil {
+				fun, _ = call.Fun.(*ast.Ident)
+			}
+			if fun == nil || fun.Name != "max" {
+				return fmt.Errorf("configCoveringAdvertised: unrecognised right-hand side for %s (line %d): neither <params>.<field> nor max(<config>.%s, <params>.<field>…)", name, c.Fset.Position(as.Pos()).Line, name)
+			}
+			own := false
+			for _, a := range call.Args {
+				if f, ok := pField(a); ok {
+					src[name] = append(src[name], f)
+				} else if ownField(a) {
+					own = true
+				} else {
+					return fmt.Errorf("configCoveringAdvertised: unrecognised argument of max for %s (line %d)", name, c.Fset.Position(a.Pos()).Line)
+				}
+			}
+			if !own || len(src[name]) == 0 {
+				return fmt.Errorf("configCoveringAdvertised: max for %s must read both the Config value and a transport parameter (line %d)", name, c.Fset.Position(as.Pos()).Line)
+			}
+			shape[name] = "max"
+		}
+	}
+	for _, f := range fields {
+		if shape[f] == "" {
+			return fmt.Errorf("configCoveringAdvertised: unconditional assignment to %s not found", f)
+		}
+	}
+	if total != 2 {
+		return fmt.Errorf("configCoveringAdvertised: %d writes to MaxIncomingStreams / MaxIncomingUniStreams, expected exactly the two unconditional assignments", total)
+	}
+	if shape[fields[0]] != shape[fields[1]] {
+		return fmt.Errorf("configCoveringAdvertised: MaxIncomingStreams is derived by shape %q but MaxIncomingUniStreams by %q", shape[fields[0]], shape[fields[1]])
 	}
 	q := func(l []string) string {
 		var o []string
@@ -117,14 +226,13 @@ func emitCoverSources(c *Ctx, w *LeanFile) error {
 		}
 		return "[" + strings.Join(o, ", ") + "]"
 	}
-	if len(src["MaxIncomingStreams"]) == 0 || len(src["MaxIncomingUniStreams"]) == 0 {
-		return fmt.Errorf("configCoveringAdvertised: assignments to MaxIncomingStreams / MaxIncomingUniStreams not found")
-	}
-	w.P("/-- u_connection.go configCoveringAdvertised: the enforced bidi limit is `max(Config value, p.<these>)` -/")
-	w.P("def coverBidiSources : List String := %s", q(src["MaxIncomingStreams"]))
-	w.P("def coverUniSources : List String := %s", q(src["MaxIncomingUniStreams"]))
-	w.P("/-- … and the assignments have the form `c.X = max(c.X, …)` -/")
-	w.P("def coverKeepsConfig : Bool := %v", keepsOwn["MaxIncomingStreams"] && keepsOwn["MaxIncomingUniStreams"])
+	w.P("/-- u_connection.go configCoveringAdvertised: the transport-parameter fields the enforced bidi / uni stream limit is derived from -/")
+	w.P("def coverBidiSources : List String := %s", q(src[fields[0]]))
+	w.P("def coverUniSources : List String := %s", q(src[fields[1]]))
+	w.P("/-- shape of the two assignments: \"advertised\" = `c.X = p.<field>`, \"max\" = `c.X = max(c.X, p.<field>…)` (any other shape fails the extraction) -/")
+	w.P("def coverShape : String := %q", shape[fields[0]])
+	w.P("/-- … i.e. does the (populated) Config value take part (`max` shape)? -/")
+	w.P("def coverKeepsConfig : Bool := %v", shape[fields[0]] == "max")
 	return nil
 }
 
